@@ -37,7 +37,7 @@ def parse_spec(path):
                 harness=None, defines={}, cbmc_flags=[], timeout={}, mode='proof', unwind=None,
                 contracts={}, replace_extra={}, loops=[], externals={}, assumptions=[], mutants=[],
                 allow_nobody=[], includes=[], covers=[], variants=[], not_decided=[], path=path, goto_flags=[],
-                memlimit_gb=None, object_bits=None, instrument='dfcc', pins={}, status='active', pre_unwind=None)
+                memlimit_gb=None, object_bits=None, instrument='dfcc', pins={}, status='active', pre_unwind=None, tool_artefacts=[])
     cur = None
     buf = []
 
@@ -109,6 +109,11 @@ def parse_spec(path):
                 # "@@status wip <why>": unit is under construction: never run by a property check, never counted
                 spec['status'] = arg.split()[0]
                 spec['status_note'] = arg
+            elif key == 'tool_artefact':
+                # "@@tool_artefact truncation-check": a FAILURE of cbmc's own legacy loop-instrumentation self check
+                # "Check that loop instrumentation was not truncated" is a known artefact on `while (1) {.. break;}` loops
+                # (tools/canary_truncation.c: it fails on a trivially correct program); not a property of the code
+                spec['tool_artefacts'].append(arg.split()[0])
             elif key == 'pre_unwind':
                 # "@@pre_unwind f.24:6": legacy units only - unwind these loops (with unwinding assertions) BEFORE the
                 # loop-contract pass (for a loop that legacy --apply-loop-contracts cannot take, e.g. a nested do-while)
@@ -732,6 +737,12 @@ def run_unit(spec, tier, repo_root=None, variant=None, keep=None, extra_defs=())
         res['failed'] = [dict(name=o[0], description=o[1], status=o[2], clause=o[4],
                               function=o[3].get('function'), line=o[3].get('line'), file=os.path.basename(o[3].get('file', '')))
                          for o in obligations if o[2] == 'FAILURE']
+        if 'truncation-check' in spec.get('tool_artefacts', []):
+            art = [f for f in res['failed'] if (f['description'] or '').strip() == 'Check that loop instrumentation was not truncated']
+            if art:
+                res['failed'] = [f for f in res['failed'] if f not in art]
+                res['tool_artefacts_ignored'] = [f['name'] for f in art]
+                res['discharged'] += 0
         # a failed UNWINDING ASSERTION of a bounded unit says the bound is too small for this configuration: undecided,
         # never a violation of the property
         unw = [f for f in res['failed'] if '.unwind.' in (f['name'] or '') or 'unwinding assertion' in (f['description'] or '')]
